@@ -27,8 +27,42 @@ def rbytes(rnd, n):
     return bytes(rnd.getrandbits(8) for _ in range(n))
 
 
-def line_trace(run, wd, module, nlines, timeout=3000, shards=16):
-    """run a LineTrace-shaped validation; returns list of rejected 1-based line numbers"""
+def line_trace(run, wd, module, nlines, timeout=3000, shards=16, chunk_bytes=48 << 20, chunk_lines=40000):
+    """run a LineTrace-shaped validation; returns list of rejected 1-based line numbers.
+    Large traces are validated in consecutive chunks (TLC holds the deserialized trace in memory; several hundred MB of
+    JSON make the JVM spend its time collecting garbage), line numbers are mapped back."""
+    trace = os.path.join(wd, "trace.ndjson")
+    if os.path.exists(trace) and (os.path.getsize(trace) > chunk_bytes or nlines > chunk_lines):
+        full = trace + ".full"
+        os.rename(trace, full)
+        bad, off, buf, size = [], 0, [], 0
+        try:
+            def flush():
+                nonlocal off, buf, size
+                if buf:
+                    with open(trace, "wb") as f:
+                        f.writelines(buf)
+                    bad.extend(off + i for i in _line_trace_one(run, wd, module, len(buf), timeout))
+                    off += len(buf)
+                    buf, size = [], 0
+            with open(full, "rb") as f:
+                for ln in f:
+                    if not ln.strip():
+                        continue
+                    buf.append(ln)
+                    size += len(ln)
+                    if size >= chunk_bytes or len(buf) >= chunk_lines:
+                        flush()
+            flush()
+        finally:
+            os.replace(full, trace)
+        if off != nlines:
+            raise vlib.Inconclusive("%s: %d lines validated in chunks, expected %d" % (module, off, nlines))
+        return bad
+    return _line_trace_one(run, wd, module, nlines, timeout)
+
+
+def _line_trace_one(run, wd, module, nlines, timeout):
     res = vlib.tlc_or_die(wd, module, timeout=timeout)
     bad = sorted(int(v) for v in res.tags("BADLINE"))
     # one state per line + the initial state; anything else means lines were skipped
